@@ -27,6 +27,7 @@ import (
 	bctx "github.com/flant/shell-operator/pkg/hook/binding_context"
 	"github.com/flant/shell-operator/pkg/hook/task_metadata"
 	htypes "github.com/flant/shell-operator/pkg/hook/types"
+	kemtypes "github.com/flant/shell-operator/pkg/kube_events_manager/types"
 	shell_operator "github.com/flant/shell-operator/pkg/shell-operator"
 	"github.com/flant/shell-operator/pkg/task"
 	"github.com/flant/shell-operator/pkg/task/queue"
@@ -97,16 +98,30 @@ func mkNamed(t Task) *task.BaseTask {
 	if t.NoMeta {
 		return bt
 	}
-	hm := task_metadata.HookMetadata{HookName: hookName(t.Hook), BindingType: htypes.Schedule}
+	// as the schedule handler (operator.go:163-191) or, for Kube, the kubernetes event handler
+	// (operator.go:133-161) builds it; ExecuteOnSynchronization is set by taskHandleEnableKubernetesBindings only
+	hm := task_metadata.HookMetadata{HookName: hookName(t.Hook), BindingType: htypes.Schedule,
+		Group: groups[t.Group%len(groups)], ExecuteOnSynchronization: t.Exec}
+	if t.Kube {
+		hm.BindingType = htypes.OnKubernetesEvent
+	}
 	for _, c := range t.Ctxs {
 		bc := bctx.BindingContext{Binding: "c" + strconv.Itoa(c.Tag)}
 		bc.Metadata.BindingType = htypes.Schedule
+		switch {
+		case c.Sync:
+			bc.Metadata.BindingType = htypes.OnKubernetesEvent
+			bc.Type = kemtypes.TypeSynchronization
+		case t.Kube:
+			bc.Metadata.BindingType = htypes.OnKubernetesEvent
+			bc.Type = kemtypes.TypeEvent
+			bc.WatchEvent = kemtypes.WatchEventAdded
+		}
 		bc.Metadata.Group = groups[c.Group%len(groups)]
 		hm.BindingContext = append(hm.BindingContext, bc)
 	}
 	if len(t.Ctxs) > 0 {
 		hm.Binding = "c" + strconv.Itoa(t.Ctxs[0].Tag)
-		hm.Group = groups[t.Ctxs[0].Group%len(groups)]
 	}
 	for _, m := range t.Mids {
 		hm.MonitorIDs = append(hm.MonitorIDs, strconv.Itoa(m))
@@ -189,7 +204,15 @@ func coqNamedTask(t Task) string {
 		core.CoqList(t.Ctxs, coqCtx), core.CoqList(t.Mids, core.CoqN), t.Name)
 }
 
-func coqQset(queues []int, q []Task) string {
+// coqFullTask: the task with the three fields the task handler reads (classes "op" and "sync")
+func coqFullTask(t Task) string {
+	return fmt.Sprintf("TG %d %d %d %s %s %s %d %s %d %s", t.Id, t.Hook, t.Ty, core.CoqBool(!t.NoMeta),
+		core.CoqList(t.Ctxs, coqCtx), core.CoqList(t.Mids, core.CoqN), t.Name, core.CoqBool(t.Kube), t.Group, core.CoqBool(t.Exec))
+}
+
+func coqQset(queues []int, q []Task) string { return coqQsetWith(queues, q, coqNamedTask) }
+
+func coqQsetWith(queues []int, q []Task, coqNamedTask func(Task) string) string {
 	parts := make([]string, len(queues))
 	for i, n := range queues {
 		var ts []Task
